@@ -85,3 +85,21 @@ package query
 //@ func query.QFromProto
 //@   flag notypednil=true
 //@   ensures true
+//@   assigns nothing
+
+// The loop-carrying variant decoders only allocate fresh nodes (assumed).
+//@ func query.AndFromProto
+//@   trusted
+//@   assigns nothing
+//@ func query.OrFromProto
+//@   trusted
+//@   assigns nothing
+//@ func query.BranchesReposFromProto
+//@   trusted
+//@   assigns nothing
+//@ func query.FileNameSetFromProto
+//@   trusted
+//@   assigns nothing
+//@ func query.RawConfigFromProto
+//@   trusted
+//@   assigns nothing
